@@ -208,9 +208,11 @@ def main(argv):
             unlisted.append(v)
 
     os.makedirs(REPLAYS, exist_ok=True)
+    agg = {}
     for v in listed:
-        print("KNOWN-FINDING: property=%s %s [%s] (%d occurrence(s) this run)" % (
-            pid, known_active[v["sig"]]["what"], v["sig"], v["count"]))
+        agg[v["sig"]] = agg.get(v["sig"], 0) + v["count"]
+    for sig, cnt in agg.items():
+        print("KNOWN-FINDING: property=%s %s [%s] (%d occurrence(s) this run)" % (pid, known_active[sig]["what"], sig, cnt))
     rc = 0
     for v in unlisted:
         path = os.path.join(REPLAYS, "%s-%s-seed%d.json" % (pid, slug(v["sig"]), seed))
